@@ -450,6 +450,13 @@ does not mention the output format.  (Fails to re-check when the code's bound be
 theorem tempo_factor_shape :
     tempoFactorCap = some (ticksizeCap : Int) ∧ tempoFactorScale = some 10 ∧ tempoFactorArgs = some 1 := by decide
 
+/-- The translator recognised that in `xmp_play_frame` the per-tick channel update runs for *every* virtual channel,
+unconditionally (`for (i = 0; i < p->virt.virt_channels; i++) play_channel(ctx, i);`, no other call of `play_channel`),
+and that the body of `xmp_play_frame` before `libxmp_mixer_softmixer` mentions none of the volume / output settings
+(`master_vol`, `smix_vol`, `channel_mute`, `channel_vol`, `amplify`, `mix`, `interp`, `format`, `freq`, `dsp`, `numvoc`).
+(Fails to re-check when a shortcut for inaudible channels makes the tick path depend on a volume setting.) -/
+theorem tick_path_config_free : tickLoopUnconditional = some 1 ∧ playFrameConfigReads = some [] := by decide
+
 theorem getTicksize_range (freq : Int) (tf rrate : D) (bpm : Int) :
     getTicksize freq tf rrate bpm = -1 ∨ 2 ^ anticlickShift ≤ getTicksize freq tf rrate bpm := by
   unfold getTicksize
